@@ -137,6 +137,11 @@ DSL_FAIL = [
     ("NR == %d { $c = asserting_int(\"x\") }", "put", "direct"),
     ("NR == %d && asserting_bool(1)", "filter", "direct"),
     ("NR == %d { call nosuch_unused() } subr nosuch_unused() { num z = \"abc\" }", "put", "returned"),
+    # statements failing inside the body of a user-defined function (exit is direct)
+    ("func f() { print > \"/nonexistent-dir/x\", \"y\"; return 1 } NR == %d { $c = f() }", "put", "direct"),
+    ("func f(): str { tee > \"/nonexistent-dir/x\", $*; return \"s\" } NR == %d { $c = f() }", "put", "direct"),
+    ("func f() { int y = \"abc\"; return y } NR == %d { $c = f() }", "put", "direct"),
+    ("func g() { return 1 } func f() { if (\"notbool\") { return 2 } return g() } NR == %d { $c = f() }", "put", "direct"),
 ]
 DSL_FAIL_END = [
     ("end { int y = \"abc\" }", "put"),
